@@ -47,8 +47,8 @@ def basis(dim: int, pos: int) -> np.ndarray:
              at position `1`.
 
     """
-    if pos >= dim:
-        raise ValueError("Invalid: The `pos` variable needs to be less than `dim` for ket function.")
+    if pos < 0 or pos >= dim:
+        raise ValueError("Invalid: The `pos` variable needs to be in the range [0, dim - 1] for ket function.")
 
     ret = np.array(list(int(x) for x in list(f"{0:0{dim}}")))
     ret[pos] = 1
